@@ -236,7 +236,7 @@ theorem SweepOk.step_ge {G : GFns α} {y wt de : List α} {b0 : Best α} {pre : 
   rw [h0, ← hsc, if_neg hge]
 
 /-- the translated `ws2d` on arbitrary arrays -/
-theorem gen_ws2d_arr (a b : Array α) (s : α) (h : b.size = a.size) (h3 : 3 ≤ a.size) :
+theorem gen_ws2d_arrW (a b : Array α) (s : α) (h : b.size = a.size) (h3 : 3 ≤ a.size) :
     Gen.Ws2d.ws2d a s b = (Hdc.ws2d a.toList s b.toList).toArray := by
   have := C01gen.gen_ws2d_eq_model a.toList b.toList s (by simpa using h) (by simpa using h3)
   rw [← this]
@@ -245,9 +245,9 @@ theorem gen_ws2d_arr (a b : Array α) (s : α) (h : b.size = a.size) (h3 : 3 ≤
 theorem wr_one (a : Array α) (v : α) (h : a.size = 1) : wr a 0 v = #[v] :=
   Array.toList_inj.1 (wr_single a v h)
 
-theorem gen_ws2d_size (a b : Array α) (s : α) (h : b.size = a.size) (h3 : 3 ≤ a.size) :
+theorem gen_ws2d_sizeW (a b : Array α) (s : α) (h : b.size = a.size) (h3 : 3 ≤ a.size) :
     (Gen.Ws2d.ws2d a s b).size = a.size := by
-  rw [gen_ws2d_arr _ _ _ h h3, List.size_toArray, C01.ws2d_length _ _ _ (by simpa using h)]
+  rw [gen_ws2d_arrW _ _ _ h h3, List.size_toArray, C01.ws2d_length _ _ _ (by simpa using h)]
   simp
 
 /-! ### (c) the robust loop -/
@@ -497,7 +497,7 @@ theorem OuterInv.result {G : GFns α} (miss : α → Bool) (y llas : List α) (r
     rfl
   · right
     refine ⟨hu, hset, ?_⟩
-    rw [wcv_unfold, if_pos h4, hs, outOf_some, gen_ws2d_arr _ _ _ (by omega) (by omega), hya]
+    rw [wcv_unfold, if_pos h4, hs, outOf_some, gen_ws2d_arrW _ _ _ (by omega) (by omega), hya]
     simp [wcvOut]
 
 /-! ### (d) the asymmetric re-weighting loop of ws2dwcvp -/
